@@ -130,6 +130,10 @@ func (VarEnc) Decode(b []byte) (int, interface{}) { return len(b), string(b) }
 func (VarEnc) GetSize(d interface{}) int          { return len(d.(string)) }
 func (VarEnc) GetEncodedSize(b []byte) int        { return len(b) }
 
+// defined integer types: a TypeEncoder must hand back exactly these types
+type offT uint32
+type idT int64
+
 type pairT struct {
 	A int16
 	B [2]uint8
@@ -236,6 +240,18 @@ func (e EncSpec) Encoder() encode.Encoder {
 		return encode.Bytes{Size: 3}
 	case "Type":
 		te, err := encode.NewTypeEncoder(pairT{})
+		if err != nil {
+			panic(err)
+		}
+		return te
+	case "TypeOff":
+		te, err := encode.NewTypeEncoder(offT(0))
+		if err != nil {
+			panic(err)
+		}
+		return te
+	case "TypeID":
+		te, err := encode.NewTypeEncoder(idT(0))
 		if err != nil {
 			panic(err)
 		}
@@ -384,6 +400,18 @@ func (e EncSpec) Values(ids []int) interface{} {
 		r := make([][]byte, n)
 		for i, x := range ids {
 			r[i] = []byte{byte(x), byte(x >> 8), byte(0xff - x)}
+		}
+		return r
+	case "TypeOff":
+		r := make([]offT, n)
+		for i, x := range ids {
+			r[i] = offT(uint32(x)*0x01020304 + 0x80000001)
+		}
+		return r
+	case "TypeID":
+		r := make([]idT, n)
+		for i, x := range ids {
+			r[i] = idT(int64(x)*0x0102030405060708 - (1 << 40))
 		}
 		return r
 	case "Type":
